@@ -62,6 +62,7 @@ class FakeKernel:
         self.spd = {}            # (selector key, dir) -> decoded policy
         self.requests = []       # every request: dict(idx, raw, msg|None, error, applied)
         self.fault_plan = {}     # request index -> ('errno', -N) | ('oserror', N)
+        self.socket_faults = {}  # request index -> errno: creating the netlink socket for that request fails with OSError
         self.fault_types = {}    # request name (NEWSA, DELSA, ...) -> the same, for EVERY request of that type (a persistent refusal)
         self.events = collections.deque()   # kernel -> daemon messages waiting on the event socket
         self.listeners = []
@@ -162,8 +163,17 @@ class _NlSock:
         r, self.reply = self.reply, b''
         return r
 
-    def bind(self, *a):
-        pass
+    def bind(self, addr=(0, 0), *a):
+        if self.groups is None:
+            self.groups = addr[1] if isinstance(addr, tuple) and len(addr) > 1 else 0
+        if not self.groups:
+            # the short-lived socket of ONE request: opening it can be made to fail (EMFILE, ENOBUFS ...)
+            k = self.kernel
+            fault = k.socket_faults.pop(len(k.requests), None)
+            if fault is not None:
+                if W.cur is not None and W.cur.step_faults is not None:
+                    W.cur.step_faults.append(('netlink-socket', len(k.requests), fault))
+                raise OSError(fault, 'injected failure to open the netlink socket')
 
     def close(self):
         pass
@@ -260,10 +270,21 @@ class _SockShim:
 _sock_shim = _SockShim()
 
 
+class SelectSpin(BaseException):
+    """The loop keeps calling select() with an argument the real select() refuses: it would spin for ever without reading a socket or running a timer."""
+
+
 def _select_shim(rlist, wlist, xlist, timeout=None):
     ep = W.cur
     ep.select_calls += 1
     if ep.select_calls > 1:
+        # this is the call that would block until the next event: like select.select it refuses a negative / non-numeric timeout.
+        # (The first call of a step is not judged: the harness moved the clock while the daemon "slept", its argument was computed after the jump.)
+        if timeout is not None and (not isinstance(timeout, (int, float)) or timeout < 0 or timeout != timeout):
+            ep.select_refused = getattr(ep, 'select_refused', 0) + 1
+            if ep.select_calls > 25:
+                raise SelectSpin(f'select() refused {ep.select_calls - 1} times in a row: timeout={timeout!r}')
+            raise ValueError('timeout must be non-negative')
         raise LoopExit()
     ready = []
     for s in rlist:
@@ -276,8 +297,16 @@ def _select_shim(rlist, wlist, xlist, timeout=None):
     return ready, [], []
 
 
-def _get_socket(cls, groups):
-    return W.cur.kernel.socket(groups)
+class _NetlinkSocketModule:
+    """Stands in for the `socket` module inside netlink.py: socket(AF_NETLINK, ...) yields the fake kernel's socket, so the repository's own
+    _get_socket / send_recv code runs unchanged; creating the socket for a REQUEST can be made to fail (EMFILE ...) through FakeKernel.socket_faults."""
+
+    def __getattr__(self, name):
+        return getattr(_socket, name)
+
+    @staticmethod
+    def socket(family, kind, proto=0, *a):
+        return _NlSock(W.cur.kernel, None)
 
 
 class _TracebackShim:
@@ -389,7 +418,10 @@ def install():
     W.installed = True
     r_ctl.socket = _sock_shim
     r_ctl.select = _select_shim
-    r_netlink.NetlinkProtocol._get_socket = classmethod(_get_socket)
+    r_netlink.socket = _NetlinkSocketModule()
+    for mod in (r_ctl, r_xfrm, r_msg, r_crypto, r_conf):
+        if getattr(mod, 'time', None) is __import__('time'):
+            mod.time = W.clock          # a module that starts reading the clock gets the virtual one like ikesa and netlink
     r_ikesa.time = W.clock
     r_netlink.time = W.clock
     r_ikesa.traceback = _TracebackShim
@@ -537,7 +569,7 @@ class Endpoint:
                 rec.died, rec.exc = True, RuntimeError('main_loop returned')
         except LoopExit:
             pass
-        except Exception as ex:     # the daemon would have terminated here
+        except (Exception, SystemExit, SelectSpin) as ex:     # the daemon would have terminated (or spun for ever) here
             rec.died, rec.exc = True, ex
         finally:
             W.cur = prev
